@@ -2,7 +2,7 @@
 import copy
 from .. import tlc, gen, common, scn_replay
 
-OPS = '{"RegMgr","Register","Run","RestRun","SetProp","Begin","Step","End","ResetCache"}'
+OPS = '{"RegMgr","Register","Run","RestRun","SetProp","Begin","BeginWide","Step","End","ResetCache"}'
 
 
 def consts(mgrs='{"m1","m2"}', scs='{"a","b"}', kv='{0,3,5}', tabs='{"","B","C"}', rss='{"","r1","r2"}', dev='{}', ops=OPS):
@@ -15,7 +15,7 @@ def run(tier, replay_file=None):
     R.cov["states"], R.cov["transitions"] = 0, 0
     for mg, sc in ([('{"m1"}', '{"a","b"}')] if quick else [('{"m1"}', '{"a","b"}'), ('{"m1","m2"}', '{"a"}')]):
         mc = tlc.run("Scenario", dict(consts(mg, sc, kv='{0,3}', tabs='{"","B"}', rss='{"","r1"}'), L='99'),
-                     invariants=["BaseIntact", "Exact", "NoOverrideMeansModel"], properties=["Isolated"], view="View", spec="Spec", timeout=3000)
+                     invariants=["BaseIntact", "Exact", "NoOverrideMeansModel"], properties=["Isolated", "SiblingsKeep"], view="View", spec="Spec", timeout=3000)
         if mc.violation:
             R.violation("spec:" + mc.violation, {"trace": mc.trace[:3000]})
         R.cov["states"] += mc.distinct
@@ -32,6 +32,14 @@ def run(tier, replay_file=None):
         sets += hs
     bfs, _ = gen.histories("Scenario", consts('{"m1"}', '{"a","b"}', kv='{0,3}', tabs='{"","B"}', rss='{""}',
                                               ops='{"RegMgr","Register","RestRun","Begin","Step","End"}'), 3 if quick else 5)
+    # a session over both scenarios of a manager, step settings for one of them only (either one): all histories of this shape
+    wide, _ = gen.histories("Scenario", consts('{"m1"}', '{"a","b"}', kv='{0,3}', tabs='{"","B"}', rss='{""}',
+                                               ops='{"RegMgr","Register","Begin","BeginWide","Step","End","Run"}'), 6,
+                            defs='MC_Wide == LET n == Len(hist) IN /\\ (n = 0 => hist\'[1].op = "RegMgr") /\\ (n \\in {1, 2} => hist\'[n + 1].op = "Register")\n'
+                                 '                                  /\\ (n = 3 => hist\'[4].op = "Begin" /\\ hist\'[4].sibs # {}) /\\ (n \\in {4, 5} => hist\'[n + 1].op = "Step")\n',
+                            extra_cfg={"action_constraints": ["MC_Wide"]})
+    bfs = bfs + (wide if not quick else __import__("random").Random(common.seed()).sample(wide, min(len(wide), 120)))
+    R.cov["wide_session_histories"] = len(wide)
     R.cov["bfs_histories"], R.cov["sim_histories"] = len(bfs), len(sets)
     probes = 0
     for hist in bfs + sets:
